@@ -593,7 +593,10 @@ def run_check(prop, tier, seed, replay=None):
 
     stages = prop.stages(tier)
     jobs = []
+    only = [x for x in os.environ.get("VERIF_STAGES", "").split(",") if x]  # development aid: run the named stages only
     for si, stage in enumerate(stages):
+        if only and stage.name not in only:
+            continue
         for sh in range(stage.shards):
             jobs.append((prop.__name__.split(".")[-1], si, sh, tier, seed, ()))
     nproc = min(16, max(1, len(jobs)))
